@@ -110,8 +110,15 @@ func (cf c3Cfg) lispKeys() string {
 		cf.base, tn(cf.radix), cs, tn(cf.pretty), cf.margin, tn(cf.readably), tn(cf.array))
 }
 
-// readBase is the *read-base* the text is read with: the standard 10.
-func (cf c3Cfg) readBase() int { return 10 }
+// readBase is the *read-base* the text is read with: the standard 10 when the printer marks the
+// base itself (*print-radix*); without the marker a number printed in another base is readable only
+// when *read-base* is bound to the print base, so that is how it is read.
+func (cf c3Cfg) readBase() int {
+	if cf.radix {
+		return 10
+	}
+	return cf.base
+}
 
 // ---------------------------------------------------------------------------------------------
 // the implementation side
@@ -269,9 +276,10 @@ type c3Case struct {
 }
 
 // inDomain: the settings documented to keep output readable — *print-readably* on, arrays printed
-// (*print-array*) when the object has any, and the base either marked by *print-radix* or equal to
-// the reader's standard base 10 ("base with radix" in the property's statement; without the
-// radix marker a number printed in base 30 may even spell t or nil).
+// (*print-array*) when the object has any; the base is either marked by *print-radix* (read under the
+// standard *read-base* 10) or the text is read with *read-base* bound to *print-base*. In that second
+// family an integer whose digits spell t or nil (29 in base 30.., 23b²+18b+21 in base 24..) is a
+// listed finding and appears only in its own sweep cells.
 func (cs c3Case) inDomain() bool {
 	if !cs.cf.readably {
 		return false
@@ -279,7 +287,18 @@ func (cs c3Case) inDomain() bool {
 	if !cs.cf.array && cs.obj.has(func(o *c3Obj) bool { return o.kind == "vec" || o.kind == "arr" }) {
 		return false
 	}
-	return cs.cf.radix || cs.cf.base == 10
+	return true
+}
+
+// c3SpellsConstant: the integer's digits in the base read as the token t or nil.
+func c3SpellsConstant(n *big.Int, base int) string {
+	switch n.Text(base) {
+	case "t":
+		return "t"
+	case "nil":
+		return "nil"
+	}
+	return ""
 }
 
 func (cs c3Case) key() string { return cs.cf.String() + " " + cs.obj.term() }
@@ -726,6 +745,43 @@ func (g *c3Gen) sweeps() {
 				g.add(c3Ratio(d, m), cf, cell)
 				g.add(c3Ratio(new(big.Int).Neg(d), m), cf, cell)
 			}
+		}
+	}
+	// digit-count boundaries: b^18, b^19, b^20 (±1) — fixnums of 19, 20, 21 digits in the small bases,
+	// bignums in the large ones — as integers and as the parts of ratios, with and without radix
+	for base := 2; base <= 36; base++ {
+		var vals []*big.Int
+		for _, e := range []int64{18, 19, 20, 62, 63, 64} {
+			pw := new(big.Int).Exp(big.NewInt(int64(base)), big.NewInt(e), nil)
+			vals = append(vals, new(big.Int).Sub(pw, big.NewInt(1)), pw, new(big.Int).Add(pw, big.NewInt(1)))
+		}
+		for _, radix := range []bool{false, true} {
+			cf := def
+			cf.base, cf.radix = base, radix
+			cellI := fmt.Sprintf("kind=integer class=digit-count var=base:%s,radix:%v", c3BaseClass(base), radix)
+			cellR := fmt.Sprintf("kind=ratio class=digit-count var=base:%s,radix:%v", c3BaseClass(base), radix)
+			for _, v := range vals {
+				neg := new(big.Int).Neg(v)
+				g.add(c3Int(v), cf, cellI)
+				g.add(c3Int(neg), cf, cellI)
+				g.add(c3List(c3Int(v), c3Int(neg)), cf, cellI+",in-list")
+				d := c3CoprimeSmall(v)
+				g.add(c3Ratio(v, d), cf, cellR)
+				g.add(c3Ratio(neg, d), cf, cellR)
+				g.add(c3Ratio(d, v), cf, cellR)
+			}
+		}
+		// without radix: the digits of 29 are t from base 30 on, those of 23b²+18b+21 are nil from base 24 on
+		cf := def
+		cf.base = base
+		if base >= 30 {
+			g.add(c3I(29), cf, "kind=integer class=digits-spell-t var=radix:false,read-base:print-base")
+			g.add(c3I(-29), cf, "kind=integer class=digits-spell-minus-t var=radix:false,read-base:print-base")
+		}
+		if base >= 24 {
+			b := int64(base)
+			g.add(c3I(23*b*b+18*b+21), cf, "kind=integer class=digits-spell-nil var=radix:false,read-base:print-base")
+			g.add(c3I(-(23*b*b + 18*b + 21)), cf, "kind=integer class=digits-spell-minus-nil var=radix:false,read-base:print-base")
 		}
 	}
 	// boundary numerator × boundary denominator, all pairs: under four configurations in the quick
@@ -1310,7 +1366,7 @@ func c3LispRoundtrip(cs c3Case) string {
 	scope := slip.NewScope()
 	x := cs.obj.object()
 	scope.Let(slip.Symbol("c03-x"), x)
-	o := lib.EvalString(scope, "(read-from-string (write-to-string c03-x "+cs.cf.lispKeys()+"))")
+	o := lib.EvalString(scope, fmt.Sprintf("(let ((*read-base* %d)) (read-from-string (write-to-string c03-x %s)))", cs.cf.readBase(), cs.cf.lispKeys()))
 	if !o.Ok {
 		return "condition:" + o.Class
 	}
@@ -1373,7 +1429,11 @@ func runC03(c *lib.Ctx) {
 	for i := 0; i < nRandom; i++ {
 		floats := c.Rng.Chance(25)
 		o := g.randObj(1+c.Rng.Intn(4), floats)
-		g.add(o, g.randCfg(), "")
+		cf := g.randCfg()
+		for !cf.radix && o.has(func(x *c3Obj) bool { return x.kind == "int" && c3SpellsConstant(x.n, cf.base) != "" }) {
+			o = g.randObj(1+c.Rng.Intn(4), floats) // listed finding: digits that spell t / nil
+		}
+		g.add(o, cf, "")
 	}
 	c03Run(c, g.cases, nSweep)
 	c03Wire(c, g)
@@ -1408,8 +1468,21 @@ func c03Run(c *lib.Ctx, cases []c3Case, nSweep int) {
 	}
 	var pend []pending
 	results := make([]c3Result, len(cases))
+	// the implementation is run on the cases in a seeded random order (all configurations interleaved
+	// in one process), so that state kept between prints or reads — a cache keyed by too little —
+	// shows up as a case that depends on its predecessors
+	order := make([]int, len(cases))
+	for i := range order {
+		order[i] = i
+	}
+	for i := len(order) - 1; i > 0; i-- {
+		j := c.Rng.Intn(i + 1)
+		order[i], order[j] = order[j], order[i]
+	}
+	for _, i := range order {
+		results[i] = c3Eval(cases[i])
+	}
 	for i, cs := range cases {
-		results[i] = c3Eval(cs)
 		if reqIdx[i] < 0 {
 			continue
 		}
